@@ -4887,7 +4887,9 @@ func (t *Terminal) Loop() error {
 		req := func(evts ...util.EventType) {
 			for _, event := range evts {
 				events = append(events, event)
-				if event == reqClose || event == reqQuit {
+				switch event {
+				case reqClose, reqQuit, reqPrintQuery, reqBecome, reqFatal:
+					// The session ends with this request; stop processing keys
 					looping = false
 				}
 			}
